@@ -95,3 +95,16 @@ pub struct W6;
 /// fn f(v: &mut StandardPathView) { unsafe { v.set_seg0_len(3) } }
 /// ```
 pub struct W7;
+
+/// W8 — the typed SCMP message views do not let safe code retype the message either: the echo-request view's type setter is
+/// `unsafe` like the unknown-message one (`message()` re-dispatches on the type byte without re-validating the length).
+/// ```compile_fail,E0133
+/// use sciparse::payload::scmp::view::ScmpEchoRequestMessageView;
+/// fn f(v: &mut ScmpEchoRequestMessageView) { v.set_message_type(131u8.into()); }
+/// ```
+/// W8-twin
+/// ```no_run
+/// use sciparse::payload::scmp::view::ScmpEchoRequestMessageView;
+/// fn f(v: &mut ScmpEchoRequestMessageView) { unsafe { v.set_message_type(131u8.into()) } }
+/// ```
+pub struct W8;
